@@ -197,7 +197,7 @@ func deBruijn(alpha string, order int) string {
 
 func run(c *enum.Ctx) {
 	kmerindex.MinKmerLen = 2
-	c.Rule("parameters: every (k,n,e,offset) with k in {2,3,4}, n in k+2..8 (space A) / {9,12,16} with k=4 (space B), e in {0,1,2}, offset in max(e,1)..e+3 (space B also 8) and positive threshold n+1-k(e+1); space A: 6 fixed targets of length 8..12 x every query over {a,c,g,t} of length n..6 (thorough 7), plus self comparison of every sequence of length <=7 (thorough 8); space B (tube geometry): a 40-letter target over {a,c,g} with all 4-mers distinct, queries of length 100 (all 't' background, sharing no k-mer with the target) so that the circular tube array is recycled, a copy of target[t0:t0+n] planted at EVERY (t0,q0) with every substitution pattern of <=e positions (quick: exact, all single positions, pairs at 3 spacings); space C: PALS-like parameters (k=6,n=30,e=2,offset=16; thorough also (8,50,4,36), (6,30,2,3), (5,20,1,8)) on targets of 90..200 and queries of 260..420 letters with a plant at every (t0,q0) (quick: thinned away from the ends) and substitutions at every third position; oracle: brute force over every pair of length-n windows with Hamming distance <=e (self: q0>t0): some pushed filter.Hit h must satisfy -h.Diagonal <= q0-t0 <= -h.Diagonal+offset+e-1 and [h.From,h.To) must meet [q0,q0+n); hits are read back through a real in-memory morass; non-trivial = runs with at least one epsilon-match")
+	c.Rule("parameters: every (k,n,e,offset) with k in {2,3,4}, n in k+2..8 (space A) / {9,12,16} with k=4 (space B), e in {0,1,2}, offset in max(e,1)..e+3 (space B also 8) and positive threshold n+1-k(e+1); space A: 6 fixed targets of length 8..12 x every query over {a,c,g,t} of length n..6 (thorough 7), plus self comparison of every sequence of length <=7 (thorough 8); space B (tube geometry): a 40-letter target over {a,c,g} with all 4-mers distinct, queries of length 100 (all 't' background, sharing no k-mer with the target) so that the circular tube array is recycled, a copy of target[t0:t0+n] planted at EVERY (t0,q0) with every substitution pattern of <=e positions (quick: exact, all single positions, pairs at 3 spacings); space D: k in {2,3}, n in {k,k+1,k+3}, e<=1, offset in {1,2,3,6} on targets of 17/30 and queries of 50/83 letters (query much longer than the target, threshold as low as 1) with a plant at every (t0,q0); space E: a plant at every (t0,q0) plus one stray copy of a word from the first e+1 target positions at every other query position (two-site geometry of the tube ring); space C: PALS-like parameters (k=6,n=30,e=2,offset=16; thorough also (8,50,4,36), (6,30,2,3), (5,20,1,8)) on targets of 90..200 and queries of 260..420 letters with a plant at every (t0,q0) (quick: thinned away from the ends) and substitutions at every third position; oracle: brute force over every pair of length-n windows with Hamming distance <=e (self: q0>t0): some pushed filter.Hit h must satisfy -h.Diagonal <= q0-t0 <= -h.Diagonal+offset+e-1 and [h.From,h.To) must meet [q0,q0+n); hits are read back through a real in-memory morass; non-trivial = runs with at least one epsilon-match")
 	c.Assume("kmerindex.MinKmerLen is lowered to 2 by the harness so that small k keep the spaces small", "sequences are over a,c,g,t only")
 	work := os.Getenv("VERIF_WORK")
 	if work == "" {
@@ -330,6 +330,115 @@ func run(c *enum.Ctx) {
 		}
 		c.Merge(nt)
 	})
+	// space D: small words and thresholds, query much longer than the target, every placement
+	// (exercises the final flush when many tubes have been retired and the ring has wrapped)
+	type jobD struct {
+		p          params
+		tlen, qlen int
+	}
+	var jobsD []jobD
+	for _, k := range []int{2, 3} {
+		for _, n := range []int{k, k + 1, k + 3} {
+			for e := 0; e <= 1; e++ {
+				if n+1-k*(e+1) <= 0 {
+					continue
+				}
+				for _, off := range []int{1, 2, 3, 6} {
+					if off < e {
+						continue
+					}
+					for _, tl := range []int{17, 30} {
+						for _, ql := range []int{50, 83} {
+							jobsD = append(jobsD, jobD{params{k, n, e, off}, tl, ql})
+						}
+					}
+				}
+			}
+		}
+	}
+	enum.Parallel(len(jobsD), func(ji int) {
+		j := jobsD[ji]
+		p := j.p
+		tgt := deBruijn("acg", p.K+2)[:j.tlen]
+		r := newRunner(filepath.Join(work))
+		defer r.close()
+		nt := enum.NontrivialSet{}
+		bg := strings.Repeat("t", j.qlen)
+		for t0 := 0; t0+p.N <= j.tlen; t0++ {
+			for q0 := 0; q0+p.N <= j.qlen; q0++ {
+				if c.Quick && (t0+q0)%2 == 1 && q0 < j.qlen-p.N-8 && t0 > 3 {
+					continue
+				}
+				for x := -1; x < p.N; x++ {
+					if x >= 0 && p.E == 0 {
+						break
+					}
+					w := []byte(tgt[t0 : t0+p.N])
+					if x >= 0 {
+						w[x] = 't'
+					}
+					k := kase{K: p.K, N: p.N, E: p.E, Off: p.Off, Target: tgt, Query: bg[:q0] + string(w) + bg[q0+p.N:]}
+					c.Eval()
+					if check(c, r, k) {
+						nt.AddH(enum.Hash64(enum.J(k)))
+					}
+				}
+			}
+		}
+		c.Merge(nt)
+	})
+	c.Set("space_D_parameter_sets", len(jobsD))
+	// space E: one planted match plus one stray common k-mer taken from the first target
+	// positions, at every query position (a k-mer that lands in the tube which is about to
+	// take over a slot of the ring while the match's run is still pending there)
+	type jobE struct {
+		p          params
+		tlen, qlen int
+		t0         int
+	}
+	var jobsE []jobE
+	cfgE := []jobE{{p: params{4, 16, 2, 8}, tlen: 64, qlen: 70}, {p: params{4, 12, 1, 8}, tlen: 40, qlen: 64}}
+	if !c.Quick {
+		cfgE = append(cfgE, jobE{p: params{4, 16, 2, 8}, tlen: 63, qlen: 70}, jobE{p: params{4, 16, 2, 8}, tlen: 57, qlen: 70}, jobE{p: params{4, 9, 1, 3}, tlen: 30, qlen: 50}, jobE{p: params{3, 8, 1, 4}, tlen: 32, qlen: 50})
+	}
+	for _, x := range cfgE {
+		for t0 := 0; t0+x.p.N <= x.tlen; t0++ {
+			if c.Quick && t0%2 == 1 {
+				continue
+			}
+			y := x
+			y.t0 = t0
+			jobsE = append(jobsE, y)
+		}
+	}
+	enum.Parallel(len(jobsE), func(ji int) {
+		j := jobsE[ji]
+		p := j.p
+		tgt := deBruijn("acg", p.K)[:j.tlen]
+		r := newRunner(filepath.Join(work))
+		defer r.close()
+		nt := enum.NontrivialSet{}
+		bg := strings.Repeat("t", j.qlen)
+		for q0 := 0; q0+p.N <= j.qlen; q0++ {
+			for cpos := 0; cpos <= p.E; cpos++ {
+				for kp := 0; kp+p.K <= j.qlen; kp++ {
+					if kp+p.K > q0 && kp < q0+p.N {
+						continue // the stray word must not overlap the plant
+					}
+					b := []byte(bg)
+					copy(b[q0:], tgt[j.t0:j.t0+p.N])
+					copy(b[kp:], tgt[cpos:cpos+p.K])
+					k := kase{K: p.K, N: p.N, E: p.E, Off: p.Off, Target: tgt, Query: string(b)}
+					c.Eval()
+					if check(c, r, k) {
+						nt.AddH(enum.Hash64(enum.J(k)))
+					}
+				}
+			}
+		}
+		c.Merge(nt)
+	})
+	c.Set("space_E_jobs", len(jobsE))
 	// space C: PALS-like parameters on longer sequences
 	type pc struct {
 		p          params
